@@ -132,6 +132,20 @@ def replay_doc(ctx, doc, n):
         check_value(ctx, f"pc_n(np.array({a}))", lambda: prs.pc_n(np.array(a)), want, "pc_n/ndarray", rp)
         return
     if kind in ("one", "two"):
+        if kind in ("one", "two"):
+            xa = np.array(sample_of(a, "str"))
+            keep = xa.copy()
+            kcut = max(1, len(xa) // 2)
+            want_view = None
+            got1 = prs.pc(xa) if len(xa) >= 2 else None
+            if not np.array_equal(xa, keep):
+                ctx.violation("pc/one/argument_mutated", f"pc(ndarray {keep.tolist()}) changed the caller's array to {xa.tolist()}", rp)
+            else:
+                # the same buffer as both samples: pc(x, x[:k]) counts the cross pairs of x and its first k elements
+                cross = sum(1 for u in keep for v_ in keep[:kcut] if u == v_)
+                gotv = prs.pc(xa, xa[:kcut])
+                if abs(float(gotv) - cross / (len(keep) * kcut)) > 1e-12 or not np.array_equal(xa, keep):
+                    ctx.violation("pc/two/view_of_first_sample", f"pc(x, x[:{kcut}]) with x = {keep.tolist()} gave {gotv} want {cross}/{len(keep) * kcut}", rp)
         for vk in (VALUE_KINDS if n % 4 == 0 else [VALUE_KINDS[n % len(VALUE_KINDS)], "str"]):
             x = sample_of(a, vk)
             ctx.case(dict(fn="pc", kind=kind, a=a, b=b, values=vk), nontrivial=len(set(a)) < len(a))
